@@ -15,10 +15,10 @@ def pinnedStructs : List (String × List Field) := [
     ⟨"New", "*OSM", "new,omitempty", ""⟩
   ]),
   ("Bounds", [
-    ⟨"MinLat", "float64", "minlat,attr", ""⟩,
-    ⟨"MaxLat", "float64", "maxlat,attr", ""⟩,
-    ⟨"MinLon", "float64", "minlon,attr", ""⟩,
-    ⟨"MaxLon", "float64", "maxlon,attr", ""⟩
+    ⟨"MinLat", "float64", "minlat,attr", "minlat"⟩,
+    ⟨"MaxLat", "float64", "maxlat,attr", "maxlat"⟩,
+    ⟨"MinLon", "float64", "minlon,attr", "minlon"⟩,
+    ⟨"MaxLon", "float64", "maxlon,attr", "maxlon"⟩
   ]),
   ("Change", [
     ⟨"Version", "string", "version,attr,omitempty", "version,omitempty"⟩,
